@@ -769,7 +769,8 @@ fn main() {
     // buffers beyond 65535 octets (direct use of a Parser): the leading LongRecordData checks
     for &t in &[48u16, 43, 59, 60, 10, 16, 46, 250, 61, 52] {
         for &l in &[65535usize, 65536, 65539, 65540] {
-            let buf = vec![0u8; l + 1];
+            // TXT: 255-octet strings (a buffer of empty strings makes the list model quadratic)
+            let buf = vec![if t == 16 { 0xffu8 } else { 0u8 }; l + 1];
             parse_case(&mut out, t, &buf, 1, l + 1, "parse_huge");
         }
     }
